@@ -147,6 +147,44 @@ def run(tier, seed):
         selfobj.config = {'grouping': grouping}
         out = rtcheck.check_call(F, {'self': selfobj, 'answers': ['x'] * na, 'student_list': ['y'] * ni})
         t.record('ListGrader.validate_submission (contract)', (repr(grouping), na, ni), out, 'validate_submission grouping=%r answers=%d inputs=%d' % (grouping, na, ni))
+    # the assignment step itself, exhaustively on the statement's small family: every 4 x 4 matrix of 0/1 credits (65536) through find_optimal_order
+    # (the real cost-matrix construction + Munkres), total credit compared with the best over all 24 one-to-one assignments
+    perms4 = list(itertools.permutations(range(4)))
+    answers4, inputs4 = ['a0', 'a1', 'a2', 'a3'], ['s0', 's1', 's2', 's3']
+    n_bad = 0
+    for bits in range(1 << 16):
+        m = [[(bits >> (4 * r + c)) & 1 for c in range(4)] for r in range(4)]        # m[input][answer]
+        def chk(a, s, m=m):
+            g = m[int(s[1])][int(a[1])]
+            return {'ok': bool(g), 'grade_decimal': g, 'msg': ''}
+        try:
+            got = sum(e['grade_decimal'] for e in lg.find_optimal_order(chk, answers4, inputs4))
+        except Exception as e:
+            got = '%s: %s' % (type(e).__name__, str(e)[:80])
+        best = max(sum(m[i][p[i]] for i in range(4)) for p in perms4)
+        if got != best:
+            n_bad += 1
+            if n_bad <= 10:
+                t.fail('find_optimal_order (exhaustive 4x4 over {0,1})', ('bits', bits), 'credit matrix (rows = inputs) %r: assignment with total credit %r, the best one-to-one assignment has %r' % (m, got, best))
+    t.evaluations += (1 << 16)
+    t.by_contract['find_optimal_order (exhaustive 4x4 over {0,1})'] = 1 << 16
+    t.distinct.add(('find_optimal_order exhaustive', 1 << 16))
+    # ... and random 5 x 5 / 6 x 6 credit tables with ties and fractional credits
+    n_rand = 3000 if tier == 'quick' else 30000
+    for k in range(n_rand):
+        n = rnd.choice((5, 6))
+        m = [[rnd.choice((0, 0, 1, 1, 0.5, 0.25)) for _ in range(n)] for _ in range(n)]
+        ans, inp = ['a%d' % i for i in range(n)], ['s%d' % i for i in range(n)]
+        def chk(a, s, m=m):
+            g = m[int(s[1:])][int(a[1:])]
+            return {'ok': bc.AbstractGrader.grade_decimal_to_ok(g), 'grade_decimal': g, 'msg': ''}
+        try:
+            got = sum(e['grade_decimal'] for e in lg.find_optimal_order(chk, ans, inp))
+        except Exception as e:
+            got = '%s: %s' % (type(e).__name__, str(e)[:80])
+        best = max(sum(m[i][p[i]] for i in range(n)) for p in itertools.permutations(range(n)))
+        ok = not isinstance(got, str) and abs(got - best) < 1e-9
+        (t.ok if ok else t.fail)('find_optimal_order (random 5x5 / 6x6)', ('rand', k), *([] if ok else ['credit matrix %r: total credit %r, best assignment %r' % (m, got, best)]))
     return t.report(rule="random ListGrader configurations with a table-driven subgrader (every permutation of <= 4 inputs) against exhaustive search over assignments and answer lists; "
                          "fixed grouped/nested cases; contract of validate_submission under CPython; distinct = distinct (configuration, input order) keys",
                     bounds={'configurations': n_cfg, 'inputs': '1..5', 'alternative lists': '1..3'}, exhaustive=False)
